@@ -3,7 +3,7 @@ from . import wl_roundtrip
 
 PROPERTY = "C12"
 LEVEL = "exploration"
-SCENARIOS = {"faults": 6, "nofault": 3, "nofault-nooversize": 1, "fast-master": 2}
+SCENARIOS = {"faults": 6, "nofault": 3, "nofault-nooversize": 1, "fast-master": 2, "long-history": 1}
 TIERS = {"quick": {"runs": 6000, "chunk": 40}, "thorough": {"runs": 50000000, "wall_s": 600, "chunk": 200, "recheck": 16}}
 RULE = ("one run = 1-8 concurrent client tasks issuing 1-30 EtherCat.roundtrip calls "
         "(sizes 0..1472 and beyond, bursts in one loop iteration, short wait_for "
@@ -34,7 +34,100 @@ MINE = {"never-fit-stalls-master", "master-stalled", "library-task-died", "never
         "never-completed"}
 
 
+def run_long_history(tape):
+    """one request whose frame is held back for long while thousands of later requests are
+    served (in few runs: more than 65536 of them, i.e. more than any 16-bit frame number
+    can tell apart): the late frame still completes its own request with its own bytes, and
+    none of the later ones gets anything but its own"""
+    import asyncio
+    from ebpfcat.ethercat import ECCmd, EtherCat
+    from sim.bus import SimTerminal, WireFaults
+    from sim.loop import SimStall
+    from sim.seams import Env
+
+    env = Env(tape, faults=WireFaults(delay_buckets=(50e-6, 20e-6, 120e-6)))
+    world, bus = env.world, env.bus
+    st = bus.add_terminal(SimTerminal(bus, "T0", station=1001, n_sm=0, n_fmmu=0))
+    for a in range(0x1000, 0x9000):
+        st.mem[a] = (a * 7 + (a >> 8) * 13 + 5) & 0xff
+    long_run = tape.chance("c12/more-than-65536-frames", 2)
+    n = 65536 + 300 + tape.draw("c12/extra-frames", 500) if long_run \
+        else 200 + tape.draw("c12/frames", 3000)
+    hold_s = n * 400e-6 + 1.0
+    ec = EtherCat("sim0")
+    violations = []
+    held = {}
+
+    def viol(rule, detail, **params):
+        if not violations:
+            violations.append({"rule": rule, "params": params, "detail": detail})
+
+    def expect(off, k):
+        return bytes(st.mem[off:off + k])
+
+    def delay_for(no, frame):
+        if not held and len(frame) > 30 and frame[26:28] != b"\0\0" and started[0]:
+            held["no"] = no
+            return hold_s
+        return None
+    started = [False]
+    done = {"late": None, "served": 0}
+
+    async def late_request():
+        got = await ec.roundtrip(ECCmd.FPRD, 1001, 0x8800, data=6)
+        done["late"] = bytes(got)
+
+    async def main(loop):
+        await ec.connect()
+        bus.delay_for = delay_for
+        started[0] = True
+        late = asyncio.ensure_future(late_request())
+        for _ in range(100):          # its frame leaves on its own, then the others follow
+            if held:
+                break
+            await asyncio.sleep(20e-6)
+        for i in range(n):
+            off = 0x1000 + (i * 3) % 0x7000
+            try:
+                got = await asyncio.wait_for(ec.roundtrip(ECCmd.FPRD, 1001, off, data=4), 0.5)
+            except asyncio.TimeoutError:
+                viol("never-completed", f"request {i} of {n} (after the held frame {held}) "
+                     f"did not complete within 0.5 s", long_history=True)
+                break
+            if bytes(got) != expect(off, 4):
+                viol("wrong-bytes", f"request {i} of {n} read {bytes(got).hex()} at {off:#x}, "
+                     f"the terminal holds {expect(off, 4).hex()}", long_history=True)
+                break
+            done["served"] += 1
+        try:
+            await asyncio.wait_for(late, hold_s + 2.0)
+        except asyncio.TimeoutError:
+            viol("never-completed", f"the request whose frame was held back for {hold_s:.1f} s "
+                 f"never completed although the frame arrived ({done['served']} requests were "
+                 f"served meanwhile)", long_history=True)
+        if done["late"] is not None and done["late"] != expect(0x8800, 6):
+            viol("wrong-bytes", f"the held-back request returned {done['late'].hex()}, the "
+                 f"terminal holds {expect(0x8800, 6).hex()}", long_history=True)
+
+    with env:
+        try:
+            env.run(main, max_iterations=20_000_000)
+        except SimStall as e:
+            viol("master-stalled", str(e), long_history=True)
+        for m, tn, txt in env.loop_exceptions():
+            if tn != "CancelledError":
+                viol("library-task-died", f"{m}: {tn}: {txt}", exception=tn)
+    world.count("c12/frames-behind-a-held-one", done["served"])
+    return {"violations": violations, "stats": dict(world.counters),
+            "digest": world.digest.hexdigest(), "sim_time": world.now,
+            "schedule": (n, world.digest.hexdigest()[:12]), "nontrivial": done["served"] >= 100,
+            "sample": {"scenario": "long-history", "frames": n, "held_for_s": round(hold_s, 2),
+                       "served": done["served"]}}
+
+
 def run(tape, scenario):
+    if scenario == "long-history":
+        return run_long_history(tape)
     res = wl_roundtrip.run_workload(
         tape, faults=scenario in ("faults", "fast-master"), fmt_args=False,
         oversize=scenario != "nofault-nooversize", cancels=True,
